@@ -216,7 +216,8 @@ func (fr *Frame) contractCall(st *State, fc *FuncContract, key string, args []Va
 		}
 		u.obligeRec(fr.oblFn, fmt.Sprintf("atcall(%s)", short), ca.Clause.Label, fr.pos(pos), ca.Clause.Src, st.guard, t, rec)
 	}
-	// havoc
+	// havoc; allocation may have happened (before anything the callee stored)
+	u.havocComp(st, "alloc")
 	for _, h := range fc.Havoc {
 		if h == "*" {
 			u.havocAll(st)
@@ -284,8 +285,6 @@ func (fr *Frame) contractCall(st *State, fc *FuncContract, key string, args []Va
 			u.havocEvents(st, k)
 		}
 	}
-	// allocation may have happened
-	u.havocComp(st, "alloc")
 	rets := fr.resultVals(st, sig, smtIdent(fnShort(key)))
 	post := map[string]Val{}
 	for k, v := range vars {
@@ -611,31 +610,92 @@ func elemTypeOf(v ssa.Value) types.Type {
 	return nil
 }
 
-func (u *Unit) contractWrites(fc *FuncContract, ws map[string]bool) {
+// staticType resolves the Go type of a location expression from the parameter types alone.
+func (u *Unit) staticType(e Expr, vars map[string]types.Type) types.Type {
+	switch n := e.(type) {
+	case EIdent:
+		return vars[n.Name]
+	case EPtrType:
+		t := u.staticType(n.X, vars)
+		if t == nil {
+			return nil
+		}
+		if p, ok := t.Underlying().(*types.Pointer); ok {
+			return p.Elem()
+		}
+	case ESel:
+		t := u.staticType(n.X, vars)
+		if t == nil {
+			return nil
+		}
+		if p, ok := t.Underlying().(*types.Pointer); ok {
+			t = p.Elem()
+		}
+		if _, ok := u.P.CS.Ghosts[TypeKey(t)+"."+n.Name]; ok {
+			return nil
+		}
+		if st, ok := t.Underlying().(*types.Struct); ok {
+			if _, ft := fieldPath(st, n.Name); ft != nil {
+				return ft
+			}
+		}
+	case EIndex:
+		t := u.staticType(n.X, vars)
+		if t == nil {
+			return nil
+		}
+		if sl, ok := t.Underlying().(*types.Slice); ok {
+			return sl.Elem()
+		}
+	case EAssert:
+		if tv, err := (&Env{u: u, vars: map[string]Val{}, st: &State{guard: "true", comp: map[string]Term{}}, pkg: u.curPkg}).EvalVal(n.T); err == nil && tv.IsType {
+			return tv.Typ
+		}
+	}
+	return nil
+}
+
+func (u *Unit) contractWrites(fc *FuncContract, ws map[string]bool, ptypes []types.Type) {
 	for _, h := range fc.Havoc {
 		ws[h] = true
 	}
 	for _, k := range fc.Emits {
 		ws["ev:"+k] = true
 	}
-	if len(fc.Assigns) > 0 {
-		// the sort of each location is only known after evaluation; be conservative per clause text
-		for _, a := range fc.Assigns {
-			if id, ok := a.(EIdent); ok && id.Name == "*" {
-				ws["*"] = true
-				continue
-			}
-			for _, s := range []string{SInt, SBool, SStr, SRef, SIface, SSlice, SReal} {
-				ws["H_"+s] = true
-			}
-			for k := range u.compSort {
-				if strings.HasPrefix(k, "G_") {
-					ws[k] = true
-				}
+	vars := map[string]types.Type{}
+	for i, n := range fc.Params {
+		if i < len(ptypes) {
+			vars[n] = ptypes[i]
+		}
+	}
+	for _, a := range fc.Assigns {
+		if id, ok := a.(EIdent); ok && id.Name == "*" {
+			ws["*"] = true
+			continue
+		}
+		if t := u.staticType(a, vars); t != nil {
+			u.sortsIn(t, "H_", ws)
+			continue
+		}
+		// unknown type (ghost field or unresolved): be conservative
+		for _, s := range []string{SInt, SBool, SStr, SRef, SIface, SSlice, SReal} {
+			ws["H_"+s] = true
+		}
+		for k := range u.compSort {
+			if strings.HasPrefix(k, "G_") {
+				ws[k] = true
 			}
 		}
 	}
-	if len(fc.Elems) > 0 {
+	for _, el := range fc.Elems {
+		if t := u.staticType(el, vars); t != nil {
+			if isByteSlice(t) {
+				ws["BS"] = true
+			} else if sl, ok := t.Underlying().(*types.Slice); ok {
+				ws["E_"+u.sorts.sortOf(sl.Elem())] = true
+			}
+			continue
+		}
 		for k := range u.sorts.elemSorts {
 			ws["E_"+k] = true
 		}
@@ -643,10 +703,23 @@ func (u *Unit) contractWrites(fc *FuncContract, ws map[string]bool) {
 	}
 }
 
+func sigTypes(sig *types.Signature, recv types.Type) []types.Type {
+	var out []types.Type
+	if recv != nil {
+		out = append(out, recv)
+	} else if sig.Recv() != nil {
+		out = append(out, sig.Recv().Type())
+	}
+	for i := 0; i < sig.Params().Len(); i++ {
+		out = append(out, sig.Params().At(i).Type())
+	}
+	return out
+}
+
 func (u *Unit) callWrites(c *ssa.CallCommon, ws map[string]bool, seen map[*ssa.Function]bool, depth int) {
 	if c.IsInvoke() {
 		if fc, ok := u.P.CS.Funcs[methodKey(c.Method)]; ok {
-			u.contractWrites(fc, ws)
+			u.contractWrites(fc, ws, sigTypes(c.Signature(), c.Value.Type()))
 		} else {
 			ws["*"] = true
 		}
@@ -683,7 +756,11 @@ func (u *Unit) callWrites(c *ssa.CallCommon, ws map[string]bool, seen map[*ssa.F
 	}
 	key := FuncKey(fn)
 	if fc, ok := u.P.CS.Funcs[key]; ok && !fc.Inline {
-		u.contractWrites(fc, ws)
+		var pts []types.Type
+		for _, p := range fn.Params {
+			pts = append(pts, p.Type())
+		}
+		u.contractWrites(fc, ws, pts)
 		return
 	}
 	if u.P.InRepo(fn) && fn.Blocks != nil && !seen[fn] && depth < maxInlineDepth {
